@@ -489,7 +489,7 @@ def interval(fn, F, M, v, facts, depth=0, seen=frozenset(), bound=None):
             r = (a[0] >> int(min(b[1], 63)), a[1] >> int(b[0]))
     elif op == "phi" or op == "select":
         if d.id in seen:
-            r = (INF, -INF)             # contributes nothing to the union
+            r = (-INF, INF)             # a value carried round a loop: nothing is known of it here (no widening is attempted)
         else:
             srcs = [(x, F.on_edge(pb, d.block.id)) for x, pb in d.incoming] if op == "phi" else \
                 [(d.ops[1], F.cond_facts(d.ops[0], True)), (d.ops[2], F.cond_facts(d.ops[0], False))]
